@@ -22,7 +22,7 @@ DEFAULT = dict(
     mem=False,
     get_args=None,
     big_sizes=[70000, 150000, 300000],
-    schedule_kinds=["pb", "pb", "rw", "default"],
+    schedule_kinds=["pb", "pb", "rw", "default", "pct", "pct"],
 )
 
 
@@ -42,6 +42,18 @@ def schedules(draw, P):
     kind = draw(st.sampled_from(P["schedule_kinds"]))
     if kind == "default":
         return {"kind": "pb", "preempt": []}
+    if kind == "pct":
+        prios = draw(st.lists(st.integers(0, 9), min_size=3, max_size=8))
+        k = draw(st.integers(0, 3))
+        changes = draw(st.lists(st.integers(0, P.get("pct_horizon", 400)), min_size=k, max_size=k))
+        return {"kind": "pct", "prios": prios, "changes": sorted(changes)}
+    if kind == "te":
+        # timer-eager: at k drawn decisions an eligible timer (idle timeout, polling sleep) fires although tasks are runnable
+        k = draw(st.integers(1, 6))
+        pts = draw(st.lists(st.tuples(st.integers(0, P.get("pb_horizon", 500)), st.integers(-3, -1)), min_size=k, max_size=k))
+        k2 = draw(st.integers(0, 2))
+        pts += draw(st.lists(st.tuples(st.integers(0, P.get("pb_horizon", 500)), st.integers(1, 6)), min_size=k2, max_size=k2))
+        return {"kind": "te", "preempt": [list(x) for x in pts]}
     if kind == "pb":
         k = draw(st.integers(0, 4))
         pts = draw(st.lists(st.tuples(st.integers(0, P.get("pb_horizon", 500)), st.integers(1, 6)),
@@ -90,11 +102,22 @@ def _get_args(draw, P, cfg):
     }
     if g.get("initializers"):
         a["initializer"] = draw(st.sampled_from(g["initializers"]))
+    elif cfg.get("initializer") == "ok":
+        a["initializer"] = "ok"
     return a
 
 
 @st.composite
 def cases(draw, P):
+    shape = P.get("shape")
+    if shape == "resize":
+        return draw(resize_cases(P))
+    if shape == "delivery":
+        return draw(delivery_cases(P))
+    if shape == "race_get":
+        return draw(race_get_cases(P))
+    if shape == "history_get":
+        return draw(history_get_cases(P))
     cfg = {
         "executor": draw(st.sampled_from(P["executors"])),
         "max_workers": draw(st.integers(1, P["max_workers"])),
@@ -155,6 +178,8 @@ def cases(draw, P):
             ops += [["shutdown", True, False], ["submit", {"kind": "echo", "token": i * 100 + len(mine)}]]
         elif end == "kill":
             ops.append(["shutdown", True, True])
+        elif end == "kill_get":
+            ops.append(["kill_get"])
         elif end == "del" and cfg["executor"] == "plain":
             ops.append(["del"])
         elif end == "exit" and i == 0:
@@ -169,3 +194,170 @@ def cases(draw, P):
     case = {"config": cfg, "program": program, "schedule": draw(schedules(P)),
             "faults": draw(fault_lists(P, cfg)) if P["max_faults"] else []}
     return case
+
+
+# ----------------------------------------------------------------------------- structured shapes
+def _simple_task(draw, P, tok, kinds=None):
+    kinds = kinds or P.get("resize_kinds", {"echo": 6, "gate": 2, "big": 1, "raise": 1})
+    kind = _weighted(draw, kinds)
+    spec = {"kind": kind, "token": tok}
+    if kind == "raise":
+        e = draw(st.sampled_from(EXCS))
+        spec["exc"], spec["args"] = e[0], list(e[1])
+    elif kind in ("big", "bigarg"):
+        spec["n"] = draw(st.sampled_from(P["big_sizes"]))
+    elif kind == "gate":
+        spec["g"] = 0
+    elif kind == "die":
+        spec["cause"] = draw(st.sampled_from(CAUSES))
+    return spec
+
+
+@st.composite
+def resize_cases(draw, P):
+    """C10: reusable executor, get(old) -> submit k tasks -> get(new) [-> more work] ..., 1-3 resizes."""
+    timeout = draw(st.sampled_from(P["timeouts"]))
+    cfg = {"executor": "reusable", "max_workers": draw(st.integers(1, P["max_workers"])), "timeout": timeout,
+           "cpu_count": draw(st.integers(1, 2)), "initializer": draw(st.sampled_from(P["initializers"]))}
+    ops = [["get", {"max_workers": cfg["max_workers"], "timeout": timeout, "reuse": "auto", "kill_workers": False,
+                    "initializer": cfg["initializer"]}]]
+    tok = 0
+    uses_gate = False
+    nres = draw(st.integers(1, P.get("max_resizes", 3)))
+    for r in range(nres):
+        k = draw(st.integers(0, P.get("max_inflight", 6)))
+        for _ in range(k):
+            spec = _simple_task(draw, P, tok)
+            uses_gate = uses_gate or spec["kind"] == "gate"
+            ops.append(["submit", spec])
+            tok += 1
+        if draw(st.integers(0, 5)) == 0:
+            ops.append(["sleep", draw(st.sampled_from([1e-3, 0.3, 2.0, 12.0]))])
+        if draw(st.integers(0, 3)) == 0:
+            ops.append(["wait_all"])
+        new = draw(st.integers(1, P["max_workers"]))
+        ops.append(["get", {"max_workers": new, "timeout": timeout, "reuse": draw(st.sampled_from(["auto", "auto", True])),
+                            "kill_workers": False, "initializer": cfg["initializer"]}])
+    k = draw(st.integers(0, 3))
+    for _ in range(k):
+        ops.append(["submit", _simple_task(draw, P, tok, {"echo": 1})])
+        tok += 1
+    ops.append(["wait_all"])
+    program = [ops]
+    if draw(st.integers(0, 3)) == 0:
+        # a second thread submitting on the same singleton while the first resizes
+        o2 = [["hold"]]
+        for j in range(draw(st.integers(1, 4))):
+            o2.append(["submit", _simple_task(draw, P, 100 + j, {"echo": 4, "big": 1})])
+        o2.append(["wait_all"])
+        program.append(o2)
+    if uses_gate:
+        program.append([["sleep", draw(st.sampled_from([1e-3, 0.4, 3.0, 20.0]))], ["open_gate", 0]])
+    return {"config": cfg, "program": program, "schedule": draw(schedules(P)),
+            "faults": draw(fault_lists(P, dict(cfg, max_workers=P["max_workers"]))) if P["max_faults"] else []}
+
+
+@st.composite
+def delivery_cases(draw, P):
+    """C08 delivery: one submitting thread; earlier light work, idle gaps and resizes; then >= max_workers gate
+    tasks; a second thread opens the gate long after everything else has settled."""
+    kind = draw(st.sampled_from(P["executors"]))
+    timeout = draw(st.sampled_from(P["timeouts"]))
+    mw = draw(st.integers(1, P["max_workers"]))
+    cfg = {"executor": kind, "max_workers": mw, "timeout": timeout, "cpu_count": draw(st.integers(1, 2)),
+           "initializer": "none"}
+    ops = []
+    tok = 0
+    cur = mw
+    if kind == "reusable":
+        ops.append(["get", {"max_workers": mw, "timeout": timeout, "reuse": "auto", "kill_workers": False}])
+    for _ in range(draw(st.integers(0, 3))):
+        what = draw(st.sampled_from(["echo", "echo", "sleep", "resize", "wait"]))
+        if what == "echo":
+            for _ in range(draw(st.integers(1, 4))):
+                ops.append(["submit", {"kind": "echo", "token": tok}])
+                tok += 1
+        elif what == "sleep":
+            ops.append(["sleep", draw(st.sampled_from([1e-3, 0.3, 2.0, 12.0, 40.0]))])
+        elif what == "wait":
+            ops.append(["wait_all"])
+        elif kind == "reusable":
+            cur = draw(st.integers(1, P["max_workers"]))
+            ops.append(["get", {"max_workers": cur, "timeout": timeout, "reuse": "auto", "kill_workers": False}])
+    ngate = cur + draw(st.integers(0, 3))
+    for _ in range(ngate):
+        ops.append(["submit", {"kind": "gate", "token": tok, "g": 0}])
+        tok += 1
+        if draw(st.integers(0, 6)) == 0:
+            ops.append(["submit", {"kind": "echo", "token": tok}])
+            tok += 1
+    ops.append(["wait_all"])
+    program = [ops, [["sleep", 5000.0], ["open_gate", 0]]]
+    return {"config": cfg, "program": program, "schedule": draw(schedules(P)), "faults": [], "_final_max_workers": cur}
+
+
+@st.composite
+def race_get_cases(draw, P):
+    """C09 races: 2-3 threads call get(max_workers=m_i) (same other arguments) then submit and wait."""
+    timeout = draw(st.sampled_from(P["timeouts"]))
+    cfg = {"executor": "reusable", "max_workers": draw(st.integers(1, P["max_workers"])), "timeout": timeout,
+           "cpu_count": draw(st.integers(1, 2)), "initializer": "none"}
+    program = []
+    for i in range(draw(st.integers(2, 3))):
+        ops = []
+        tok = 100 * i
+        for _ in range(draw(st.integers(1, 3))):
+            m = draw(st.integers(1, P["max_workers"])) if not P.get("same_mw") else cfg["max_workers"]
+            ops.append(["get", {"max_workers": m, "timeout": timeout, "reuse": draw(st.sampled_from(["auto", True])),
+                                "kill_workers": False}])
+            for _ in range(draw(st.integers(1, 3))):
+                ops.append(["submit", _simple_task(draw, P, tok, {"echo": 6, "big": 1, "raise": 1})])
+                tok += 1
+            if draw(st.booleans()):
+                ops.append(["wait_all"])
+        ops.append(["wait_all"])
+        program.append(ops)
+    return {"config": cfg, "program": program, "schedule": draw(schedules(P)), "faults": []}
+
+
+@st.composite
+def history_get_cases(draw, P):
+    """C09 sequential histories: one thread; get(args) / submit / crash / shutdown / idle, any order."""
+    timeout0 = draw(st.sampled_from(P["timeouts"]))
+    cfg = {"executor": "reusable", "max_workers": draw(st.integers(1, P["max_workers"])), "timeout": timeout0,
+           "cpu_count": draw(st.integers(1, 2)), "initializer": "none"}
+    ops = []
+    tok = 0
+
+    def get_op():
+        return ["get", {"max_workers": draw(st.integers(1, P["max_workers"])),
+                        "timeout": draw(st.sampled_from([timeout0, timeout0, timeout0] + list(P["timeouts"]))),
+                        "reuse": draw(st.sampled_from(["auto", "auto", "auto", True, False])),
+                        "kill_workers": draw(st.sampled_from([False, False, True])),
+                        "initializer": draw(st.sampled_from(["none", "none", "none", "ok"]))}]
+
+    ops.append(get_op())
+    for _ in range(draw(st.integers(2, P.get("max_ops", 9)))):
+        what = draw(st.sampled_from(["get", "get", "get", "submit", "submit", "crash", "shutdown", "shutdown_kill",
+                                     "idle", "wait"]))
+        if what == "get":
+            ops.append(get_op())
+        elif what == "submit":
+            ops.append(["submit", {"kind": "echo", "token": tok}])
+            tok += 1
+        elif what == "crash":
+            ops.append(["submit", {"kind": "die", "token": tok, "cause": draw(st.sampled_from([-9, -11, 3]))}])
+            ops.append(["result", tok])
+            tok += 1
+        elif what == "shutdown":
+            ops.append(["shutdown", True, False])
+        elif what == "shutdown_kill":
+            ops.append(["shutdown", True, True])
+        elif what == "idle":
+            ops.append(["sleep", draw(st.sampled_from([0.3, 2.0, 12.0, 40.0]))])
+        else:
+            ops.append(["wait_all"])
+    ops.append(get_op())
+    ops.append(["submit", {"kind": "echo", "token": tok}])
+    ops.append(["wait_all"])
+    return {"config": cfg, "program": [ops], "schedule": draw(schedules(P)), "faults": []}
